@@ -545,6 +545,188 @@ def lower_view_fn(toks, needle, fname, second, recv_mut):
     return lw.stmts
 
 
+class LowerSliceViews:
+    """reinterpreting views of src/lib.rs: one slice argument, guards, pure `let`s, raw pointers, the returned views"""
+    def __init__(self, arg_name, arg_ty):
+        self.arg = arg_name
+        t = arg_ty.replace(" ", "")
+        self.recv_mut = t.startswith("&mut")
+        inner = t[4:] if self.recv_mut else t[1:]
+        if inner == "[T]":
+            self.ext, self.estride = ".k", "(.lit 1)"
+        elif inner == "[GenericArray<T,N>]":
+            self.ext, self.estride = "(.mul .k .n)", ".n"
+        else:
+            raise Cant("argument type %s" % arg_ty)
+        self.env = {}
+        self.ptrs = {}
+        self.np = 0
+        self.nv = 0
+        self.stmts = []
+
+    def lx(self, ast):
+        k = ast[0]
+        if k == "num":
+            return "(.lit %d)" % int(ast[1])
+        if k == "paren":
+            return self.lx(ast[1])
+        if k == "path":
+            p = ast[1].replace(" ", "")
+            if p in self.env:
+                return self.env[p]
+            if p == "N::USIZE":
+                return ".n"
+            raise Cant("length expression %s" % p)
+        if k == "method" and ast[2] == "len" and not ast[3] and ast[1] == ("path", self.arg):
+            return ".k"
+        if k == "bin" and ast[1] in ("+", "-", "*", "/"):
+            return "(.%s %s %s)" % ({"+": "add", "-": "sub", "*": "mul", "/": "div"}[ast[1]], self.lx(ast[2]), self.lx(ast[3]))
+        raise Cant("length expression %r" % (ast,))
+
+    def bx(self, ast):
+        if ast[0] == "paren":
+            return self.bx(ast[1])
+        if ast[0] == "method" and ast[2] == "is_empty" and ast[1] == ("path", self.arg):
+            return "(.eq .k (.lit 0))"
+        if ast[0] == "bin" and ast[1] == "||":
+            return "(.or %s %s)" % (self.bx(ast[2]), self.bx(ast[3]))
+        if ast[0] == "bin" and ast[1] in ("<", ">=", "==", ">", "<=", "!="):
+            a, b = self.lx(ast[2]), self.lx(ast[3])
+            return {"<": "(.lt %s %s)" % (a, b), ">": "(.lt %s %s)" % (b, a), ">=": "(.ge %s %s)" % (a, b),
+                    "<=": "(.ge %s %s)" % (b, a), "==": "(.eq %s %s)" % (a, b), "!=": "(.ne %s %s)" % (a, b)}[ast[1]]
+        raise Cant("condition %r" % (ast,))
+
+    def fresh_ptr(self, wr):
+        i = self.np
+        self.np += 1
+        self.stmts.append(".ptrArg %d %s %s" % (i, "true" if wr else "false", self.ext))
+        return i
+
+    def ptr(self, ast):
+        """-> (pointer index, extra offset LX, stride LX | None)"""
+        k = ast[0]
+        if k == "paren":
+            return self.ptr(ast[1])
+        if k == "path" and ast[1] in self.ptrs:
+            return self.ptrs[ast[1]]
+        if k == "method" and ast[2] in ("as_ptr", "as_mut_ptr") and not ast[3] and ast[1] == ("path", self.arg):
+            return self.fresh_ptr(ast[2] == "as_mut_ptr"), "(.lit 0)", self.estride
+        if k == "cast":
+            p, off, st = self.ptr(ast[1])
+            ty = ast[2].replace(" ", "")
+            if ty in ("*constGenericArray<T,N>", "*mutGenericArray<T,N>", "*constSelf", "*mutSelf"):
+                return p, off, ".n"
+            if ty in ("*constT", "*mutT"):
+                return p, off, "(.lit 1)"
+            raise Cant("pointer cast to %s" % ty)
+        if k == "method" and ast[2] in ("add", "offset") and len(ast[3]) == 1:
+            p, off, st = self.ptr(ast[1])
+            if st is None:
+                raise Cant("pointer arithmetic on a pointer of unknown pointee")
+            return p, add(off, mul(self.lx(ast[3][0]), st)), st
+        raise Cant("pointer expression %r" % (ast,))
+
+    def view(self, e):
+        """a reference-producing expression -> view index"""
+        if e[0] == "paren":
+            return self.view(e[1])
+        if e[0] == "un" and e[1] in ("&", "&mut") and e[2][0] == "un" and e[2][1] == "*":
+            p, off, st = self.ptr(e[2][2])
+            if st is None:
+                raise Cant("view of unknown pointee")
+            ln, wr = st, e[1] == "&mut"
+        elif e[0] == "call" and e[1][0] == "path" and e[1][1].split("::")[-1] in ("from_raw_parts", "from_raw_parts_mut") and len(e[2]) == 2:
+            p, off, st = self.ptr(e[2][0])
+            if st is None:
+                raise Cant("view of unknown pointee")
+            ln, wr = mul(self.lx(e[2][1]), st), e[1][1].endswith("_mut")
+        else:
+            raise Cant("view expression %r" % (e[0],))
+        v = self.nv
+        self.nv += 1
+        self.stmts.append(".viewAt %d %d %s %s %s" % (v, p, off, ln, "true" if wr else "false"))
+        return v
+
+    def is_empty_ref(self, e):
+        return e[0] == "un" and e[1] in ("&", "&mut") and e[2][0] == "array" and not e[2][1]
+
+    def stmt(self, st):
+        k = st[0]
+        if k == "let":
+            if st[1][0] != "pbind" or st[2] is None:
+                raise Cant("let pattern")
+            name, init = st[1][1], st[2]
+            if init[0] == "method" and init[2] in ("as_ptr", "as_mut_ptr") and init[1] == ("path", self.arg):
+                self.ptrs[name] = self.ptr(init)
+            else:
+                self.env[name] = self.lx(init)
+            return
+        if k == "expr":
+            e = st[1]
+            if e[0] == "macro" and e[1] == "assert" and e[2]:
+                self.stmts.append(".assertThat %s" % self.bx(e[2][0]))
+                return
+            if e[0] == "if" and e[3] is None:
+                blk = e[2]
+                inner = list(blk[1]) + ([("expr", blk[2])] if blk[2] is not None else [])
+                c = self.bx(e[1])
+                if len(inner) == 1 and inner[0][0] == "expr" and inner[0][1][0] == "macro" and inner[0][1][1] == "panic":
+                    self.stmts.append(".panicIf %s" % c)
+                    return
+                if len(inner) == 1 and inner[0][0] in ("expr", "return"):
+                    r = inner[0][1] if inner[0][0] == "expr" else ("return", inner[0][1])
+                    if r[0] == "return" and r[1] is not None and r[1][0] == "call" and r[1][1] == ("path", "Err"):
+                        self.stmts.append(".errIf %s" % c)
+                        return
+                if len(inner) == 2 and inner[0][0] == "expr" and inner[0][1][0] == "macro" and inner[0][1][1] == "assert":
+                    r = inner[1][1] if inner[1][0] == "expr" else ("return", inner[1][1])
+                    if r[0] == "return" and r[1] is not None and r[1][0] == "tuple" and all(self.is_empty_ref(x) for x in r[1][1]):
+                        wr = any(x[1] == "&mut" for x in r[1][1])
+                        self.stmts.append(".emptyIf %s %s %d %s" % (c, self.bx(inner[0][1][2][0]), len(r[1][1]), "true" if wr else "false"))
+                        return
+                raise Cant("if statement")
+        raise Cant("statement %s" % k)
+
+    def value(self, e):
+        if e[0] == "block":
+            for st in e[1]:
+                self.stmt(st)
+            if e[2] is None:
+                raise Cant("no value")
+            return self.value(e[2])
+        if e[0] == "paren":
+            return self.value(e[1])
+        if e[0] == "call" and e[1] == ("path", "Ok") and len(e[2]) == 1:
+            return self.value(e[2][0])
+        comps = e[1] if e[0] == "tuple" else [e]
+        vs = [self.view(c if c[0] != "block" else self.unblock(c)) for c in comps]
+        self.stmts.append(".retViews [%s]" % ", ".join(str(v) for v in vs))
+
+    def unblock(self, b):
+        if b[1] or b[2] is None:
+            raise Cant("block with statements inside a value")
+        return b[2]
+
+
+LIB_VIEW_FUNCS = ["from_slice", "try_from_slice", "from_mut_slice", "chunks_from_slice", "chunks_from_slice_mut",
+                  "slice_from_chunks", "slice_from_chunks_mut"]
+
+
+def lean_name(fn):
+    parts = fn.split("_")
+    return parts[0] + "".join(w.capitalize() for w in parts[1:])
+
+
+def lower_lib_view_fn(ltoks, fname):
+    f = find_fn(ltoks, fname)
+    params, ret = fn_sig(f)
+    if len(params) != 1:
+        raise Cant("parameters of %s" % fname)
+    lw = LowerSliceViews(params[0][0], params[0][1])
+    lw.value(rsbody.parse_body(f.body))
+    return lw.stmts, lw.recv_mut
+
+
 def par_map(params):
     out = {}
     seen_arg = False
@@ -583,7 +765,18 @@ def main():
             status[lean] = {"status": "unlowered", "reason": "%s: %s" % (type(e).__name__, str(e)[:200])}
             print("NOTE body-unlowered fn=sequence.rs:%s(%s) reason=%s" % (fname, "&mut" if recv_mut else "&", status[lean]["reason"]))
         defs.append("/-- `%s` on `%sGenericArray` (src/sequence.rs), every statement in source order -/\ndef %s : List VStmt := [\n  %s]\n" % (fname, "&mut " if recv_mut else "&", lean, ",\n  ".join(stmts)))
-    out = "-- GENERATED by tools/seqbody.py from /repo/src/sequence.rs — do not edit.\nimport GA.Model.MemBody\nnamespace GA.Gen.SeqBody\nopen GA.MemBody\n\n"
+    ltoks = tokenize(open(os.path.join(REPO, "src", "lib.rs")).read())
+    for fname in LIB_VIEW_FUNCS:
+        lean = lean_name(fname)
+        try:
+            stmts, rm = lower_lib_view_fn(ltoks, fname)
+            status[lean] = {"status": "ok", "notes": [], "statements": len(stmts)}
+        except (Cant, Unparsed, StopIteration, IndexError, KeyError) as e:
+            stmts = [".opaque"]
+            status[lean] = {"status": "unlowered", "reason": "%s: %s" % (type(e).__name__, str(e)[:200])}
+            print("NOTE body-unlowered fn=lib.rs:%s reason=%s" % (fname, status[lean]["reason"]))
+        defs.append("/-- `%s` (src/lib.rs), every statement in source order -/\ndef %s : List VStmt := [\n  %s]\n" % (fname, lean, ",\n  ".join(stmts)))
+    out = "-- GENERATED by tools/seqbody.py from /repo/src/sequence.rs and /repo/src/lib.rs — do not edit.\nimport GA.Model.MemBody\nnamespace GA.Gen.SeqBody\nopen GA.MemBody\n\n"
     out += "\n".join(defs)
     out += "\nend GA.Gen.SeqBody\n"
     path = os.path.join(GEN, "SeqBody.lean")
@@ -597,7 +790,7 @@ def main():
             f.write(out)
     os.makedirs(BUILD, exist_ok=True)
     json.dump(status, open(os.path.join(BUILD, "seqbody_status.json"), "w"), indent=1, sort_keys=True)
-    print("seqbody: %d bodies, %d unlowered" % (len(FUNCS) + len(VIEW_FUNCS), sum(1 for v in status.values() if v["status"] != "ok")))
+    print("seqbody: %d bodies, %d unlowered" % (len(FUNCS) + len(VIEW_FUNCS) + len(LIB_VIEW_FUNCS), sum(1 for v in status.values() if v["status"] != "ok")))
 
 
 if __name__ == "__main__":
